@@ -1,12 +1,11 @@
 #!/bin/bash
-# import round-2 seeded changes produced in a scratch worktree and evaluate them:
-#   seed_import.sh C04 [/tmp/wt2-C04]   -> seeded/C04/{c,d}/ + meta.json, one summary line per seed
+# import seeded changes produced in a scratch worktree and evaluate them:
+#   seed_import.sh C04 /tmp/wt3-C04 "e f"   -> seeded/C04/{e,f}/ + meta.json, one summary line per seed
 cd "$(dirname "$0")/.."
-p=$1; wt=${2:-/tmp/wt2-$p}
-for v in c d; do
+p=$1; wt=${2:-/tmp/wt2-$p}; vs=${3:-"c d"}
+for v in $vs; do
   [ -d "$wt/seeded/$v" ] || continue
   mkdir -p seeded/$p/$v
   cp "$wt/seeded/$v/patch.diff" "$wt/seeded/$v/demo.py" "$wt/seeded/$v/README.md" seeded/$p/$v/ 2>/dev/null
-  extra=""
-  /venv/bin/python harness/seed_eval.py $p seeded/$p/$v $extra 2>&1 | tail -1
+  /venv/bin/python harness/seed_eval.py $p seeded/$p/$v 2>&1 | tail -1
 done
